@@ -21,7 +21,7 @@ Proof. unfold agrees_run. intro H. apply trace_eqb_eq in H. exact H. Qed.
 
 Lemma agrees_run_never_failed faithful run prior p n m cls :
   agrees_run faithful run prior p n m (Failed cls) = false.
-Proof. destruct m as [d| |]; reflexivity. Qed.
+Proof. destruct m as [d| | |]; reflexivity. Qed.
 
 (* the run function of the second accepted reading: no model can change its configuration *)
 Definition frozen_run (debug : bool) (p : pipeline) (n : nat) : list call * list capture :=
